@@ -654,7 +654,11 @@ func checkNoDuplicates(s *hx.Seq) {
 	}
 	rec(nil)
 	for _, sq := range seqs {
-		for _, coll := range []bool{false, true} {
+		for _, variant := range []int{0, 1, 2, 3} {
+			coll := variant%2 == 1
+			// scribble: the subscriber writes on every message it was given (its own copy, to do with as it likes):
+			// what it is owed next is still judged against what it was SENT
+			scribble := variant >= 2
 			s.Eval(1)
 			s.Trans(len(sq))
 			ctx, cancel := context.WithCancel(context.Background())
@@ -674,6 +678,10 @@ func checkNoDuplicates(s *hx.Seq) {
 							return
 						}
 						got = append(got, v.OnOff.GetState().String())
+						if scribble {
+							v.OnOff.State = traits.OnOff_STATE_UNSPECIFIED
+							v.Name = "scribbled"
+						}
 					}
 				}()
 				write = func(m proto.Message) { c.Update("a", m) }
@@ -688,6 +696,10 @@ func checkNoDuplicates(s *hx.Seq) {
 							return
 						}
 						got = append(got, v.OnOff.GetState().String())
+						if scribble {
+							v.OnOff.State = traits.OnOff_STATE_UNSPECIFIED
+							v.Name = "scribbled"
+						}
 					}
 				}()
 				write = func(m proto.Message) { v.Set(m) }
@@ -707,7 +719,7 @@ func checkNoDuplicates(s *hx.Seq) {
 			<-done
 			cancel()
 			if fmt.Sprint(got) != fmt.Sprint(want) {
-				s.Fail(fmt.Sprintf("no-duplicates coll=%v %v", coll, sq), fmt.Sprintf("writes %v (0: ON@1s, 1: ON@2s, 2: OFF@2s, 3: ON@3s) on a resource WithNoDuplicates: delivered %v, a subscriber that holds what it was sent last is owed %v", sq, got, want), nil)
+				s.Fail(fmt.Sprintf("no-duplicates coll=%v scribbling-subscriber=%v %v", coll, scribble, sq), fmt.Sprintf("writes %v (0: ON@1s, 1: ON@2s, 2: OFF@2s, 3: ON@3s) on a resource WithNoDuplicates: delivered %v, a subscriber that holds what it was sent last is owed %v", sq, got, want), nil)
 			}
 		}
 	}
